@@ -536,7 +536,7 @@ RESIDUAL = [
     (r'\bnullptr\b', 'nullptr'),
     (r'\bthis\b', 'this'),
     (r'\[\s*[&=\w,\s]*\]\s*\(', 'lambda'),
-    (r'&&\s*\w+\s*[=;,)]\s*(?<=[=;])', 'rvalue reference'),
+    (r'(?<=[\w>])&&\s*\w+\s*(?:=(?!=)|;|,|\))', 'rvalue reference'),
     (r'\w\s*<[^<>;(){}|&]*>\s*[({]', 'template-id'),
     (r'\bstd\b', 'std'),
     (r'->\*', 'pointer to member'),
